@@ -49,6 +49,8 @@ def main():
         elif a == '--jobs': jobs = int(args.pop(0))
         else: ids.append(a)
     props = [c['property_id'] for c in json.load(open(V + '/MANIFEST.json'))['checks']]
+    if os.environ.get('VERIF_SWEEP_PROPS'):
+        props = os.environ['VERIF_SWEEP_PROPS'].split(',')
     todo = []
     for d in sorted(glob.glob(V + '/%s/*/' % kind)):
         mid = os.path.basename(d.rstrip('/'))
